@@ -83,7 +83,12 @@ def case_dir():
     """A fresh directory for one case; tempfile.tempdir points inside it so the
     memmap scratch files of Models._read_version_2 are removed with it."""
     _case_counter[0] += 1
-    d = os.path.join(scratch_root(), 'w%d' % os.getpid(), 'p%06d' % _case_counter[0])
+    # every case of one worker process gets the SAME path (removed after the case, created again for the next one): each case is
+    # thereby also a history "other files were read and written under these very names earlier in this process", which is what a
+    # cache keyed by file name would get wrong.  (VERIF_FRESH_PATHS=1 restores one path per case, for diagnosis.)
+    d = os.path.join(scratch_root(), 'w%d' % os.getpid(), 'case')
+    if os.environ.get('VERIF_FRESH_PATHS') == '1' or os.path.lexists(d):
+        d = os.path.join(scratch_root(), 'w%d' % os.getpid(), 'p%06d' % _case_counter[0])
     os.makedirs(d)
     tmp = os.path.join(d, 'tmp')
     os.makedirs(tmp)
